@@ -1,19 +1,22 @@
 #!/bin/bash
 # usage: tools/mutants.sh [glob]   — runs each mutants/<ID>-<name>.diff (ID = property) against its check; prints one line each.
+# Each mutant is applied to a scratch worktree of /repo's HEAD (VERIF_REPO); /repo itself is never modified.
 # MUT_TESTS=1 additionally runs the repository's own test suite with the mutant applied (it should stay green).
 cd /verif || exit 2
 export GOFLAGS=-mod=mod GOPROXY=off GOSUMDB=off GOTOOLCHAIN=local
 pat=${1:-*}
+wt=$(mktemp -d /tmp/mutrun-XXXXXX); rmdir "$wt"
+git -C /repo worktree add -q --detach "$wt" HEAD || exit 2
+trap 'git -C /repo worktree remove --force "$wt" 2>/dev/null; rm -rf "$wt"' EXIT
 for f in mutants/$pat.diff; do
   name=$(basename "$f" .diff); id=${name%%-*}
-  if ! git -C /repo diff --quiet; then echo "repo dirty"; exit 2; fi
-  if ! git -C /repo apply "$PWD/$f" 2>/dev/null; then echo "$name APPLY-FAILED"; continue; fi
+  git -C "$wt" checkout -q -- . ; git -C "$wt" clean -fdq
+  if ! git -C "$wt" apply "$PWD/$f" 2>/dev/null; then echo "$name APPLY-FAILED"; continue; fi
   tests="-"
   if [ -n "$MUT_TESTS" ]; then
-    if (cd /repo && go build ./... && go test -vet=off -count=1 ./... >/dev/null 2>&1); then tests=green; else tests=RED; fi
+    if (cd "$wt" && go build ./... && go test -vet=off -count=1 ./... >/dev/null 2>&1); then tests=green; else tests=RED; fi
   fi
-  out=$(VERIF_REPLAYS_DIR=/verif/.build/mut-replays VERIF_EVIDENCE_DIR=/verif/.build/mut-evidence ./run "$id" ${MUT_TIER:-quick} 2>&1); rc=$?
-  git -C /repo checkout -- . ; git -C /repo clean -fdq -- . 2>/dev/null
+  out=$(VERIF_REPO="$wt" VERIF_REPLAYS_DIR=/verif/.build/mut-replays VERIF_EVIDENCE_DIR=/verif/.build/mut-evidence ./run "$id" ${MUT_TIER:-quick} 2>&1); rc=$?
   kind=$(echo "$out" | grep -m1 -B1 "^VIOLATION" | head -1 | cut -c1-160)
   echo "$name rc=$rc tests=$tests $(echo "$out" | grep -c '^VIOLATION') viol | $kind"
 done
